@@ -151,10 +151,23 @@ def gen_fixed_layout(rng: random.Random):
         else:
             text = f"def ident(z): return z\n\ndef build(ds):\n{ind}return ident(ds.{op1}(lambda {v1}: {body_for(op1, rng, v1)}))\n"
         return text, "supported"
-    if r < 0.84:
+    if r < 0.80:
         # one-line def
         text = f"def sel({v1}): return {body_for(op1, rng, v1).replace(chr(10), ' ')}\n\ndef build(ds):\n{ind}return ds.{op1}(sel)\n"
         return text, "supported"
+    if r < 0.84:
+        # the line of the passed callable also holds the OTHER kind of definition: a lambda written inside a one-line
+        # function (its line starts with `def`), a one-line function under a decorator that holds a lambda: right or raise
+        b = body_for(op1, rng, v1).replace(chr(10), ' ')
+        kind = rng.choice(["lambda-in-one-line-def", "lambda-in-one-line-def", "decorated-def", "lambda-in-one-line-method"])
+        if kind == "lambda-in-one-line-def":
+            text = f"def build(ds): return ds.{op1}(lambda {v1}: {b})\n"
+        elif kind == "lambda-in-one-line-method":
+            text = f"class K:\n{ind}def go(self, ds): return ds.{op1}(lambda {v1}: {b})\n\ndef build(ds): return K().go(ds)\n"
+        else:
+            text = (f"def deco(f):\n{ind}return lambda g: g\n\n@deco(lambda {v2}: {v2}.never)\ndef sel({v1}): return {b}\n\n"
+                    f"def build(ds):\n{ind}return ds.{op1}(sel)\n")
+        return text, "any"
     if r < 0.88:
         # another lambda on the same line that is not an operator argument
         kind = rng.choice(["before-semicolon", "in-tuple-call", "default-arg"])
